@@ -126,6 +126,43 @@ func CompileFamilies(thorough bool) []CompileFamily {
 		}},
 		{"concat-classes", max, func(n int) string { return strings.Repeat(`[a-c]\d`, n) }},
 		{"optional-chain", max, func(n int) string { return strings.Repeat("a?", n) + strings.Repeat("a", n) }},
+		// third session: literal length (exact, case-insensitive, case-insensitive through the three-member fold orbits),
+		// products of small alternatives / classes (literal cross products), counted ranges, dot and Unicode-class
+		// repetition, alternations of case-insensitive words, and right-nested alternation
+		{"literal", max * 4, func(n int) string { return strings.Repeat("a", n) }},
+		{"literal-fold", max * 2, func(n int) string {
+			b := []byte("(?i)")
+			for i := 0; i < n; i++ {
+				b = append(b, byte('a'+i%26))
+			}
+			return string(b)
+		}},
+		{"literal-fold-orbits", max, func(n int) string { return "(?i)" + strings.Repeat("ks", n) }},
+		{"alt-product", max / 2, func(n int) string { return strings.Repeat("(?:a|b)", n) + "c" }},
+		{"class-product", max, func(n int) string { return strings.Repeat("[ab]", n) + "c" }},
+		{"repeat-range", max * 4, func(n int) string { return fmt.Sprintf("a{0,%d}", n) }},
+		{"repeat-range-group", max * 2, func(n int) string { return fmt.Sprintf("x(a{1,%d})y", n) }},
+		{"dot-repeat", max * 2, func(n int) string { return fmt.Sprintf(".{%d}", n) }},
+		{"unicode-class-repeat", max / 4, func(n int) string { return fmt.Sprintf(`\pL{%d}`, n) }},
+		{"alt-fold", max, func(n int) string {
+			var sb strings.Builder
+			sb.WriteString("(?i)")
+			for i := 0; i < n; i++ {
+				if i > 0 {
+					sb.WriteByte('|')
+				}
+				fmt.Fprintf(&sb, "word%c%c", 'a'+i%26, 'a'+(i/26)%26)
+			}
+			return sb.String()
+		}},
+		{"alt-nested", max, func(n int) string {
+			s := "z"
+			for i := 0; i < n; i++ {
+				s = fmt.Sprintf("(?:%c|%s)", 'a'+i%25, s)
+			}
+			return s
+		}},
+		{"suffix-after-star", max * 2, func(n int) string { return ".*" + strings.Repeat("ab", n) }},
 	}
 }
 
@@ -137,7 +174,7 @@ var RunCompile func(w *harness.W, f CompileFamily)
 func Space(thorough bool) *bx.Space {
 	t := bx.Tier{PN: 3, SK: 0, LASCII: 1, EmbedW: -1, TokL: 1, TokN: 2, SeedEmbW: -1}
 	if thorough {
-		t = bx.Tier{PN: 4, SK: 1, LASCII: 1, EmbedW: -1, TokL: 1, TokN: 2, SeedEmbW: -1} // same seeds first, then their neighbours
+		t = bx.Tier{PN: 4, SK: 1, LateSKDelta: 1, LASCII: 1, EmbedW: -1, TokL: 1, TokN: 2, SeedEmbW: -1} // same seeds first, then their neighbours
 	}
 	return bx.NewSpace(t)
 }
@@ -189,7 +226,7 @@ func Plan(tier string) *harness.Plan {
 				}
 			}
 		},
-		Rule:  "Work proxy: the library is rebuilt (go build -overlay, generated from the current tree) with a counter incremented at every function entry and at every loop iteration of every non-test Go file; the counter is deterministic. For every pattern AST up to N nodes and every strategy seed (thorough: one-edit neighbours), for every pump family u·v^n·x over the listed u, v, x (for the strategy seeds additionally v over the tokens of the seed's own alphabet and their ordered pairs, x over {empty, an 8-byte out-of-class tail, the first token}), the haystack is built at lengths L, 2L, 4L and Match, FindIndex and FindSubmatchIndex are measured on a freshly compiled value after one warm-up call. Oracle: W(4L) <= 2.6·W(2L) whenever W(4L) is large enough to be meaningful (>= 64 ticks per byte-independent constant), and W <= K·(states+8)·(len+1) with a fixed generous K; a search exceeding 40 000 ticks per input byte is stopped and counted as super-linear (the cap is itself a verdict, not a time-out). Compilation: pattern families (nesting, counted repetition, nested repetition, alternation width, class ranges, concatenations, a?^n a^n) at every size up to the bound, oracle W(2k) <= 8·W(k) + c (polynomial growth of degree <= 3). states = (program, family, length) inputs; transitions = measured calls; non-trivial = measurements above the noise threshold.",
+		Rule:  "Work proxy: the library is rebuilt (go build -overlay, generated from the current tree) with a counter incremented at every function entry and at every loop iteration of every non-test Go file; the counter is deterministic. For every pattern AST up to N nodes and every strategy seed (thorough: one-edit neighbours), for every pump family u·v^n·x over the listed u, v, x (for the strategy seeds additionally v over the tokens of the seed's own alphabet and their ordered pairs, x over {empty, an 8-byte out-of-class tail, the first token}), the haystack is built at lengths L, 2L, 4L and Match, FindIndex and FindSubmatchIndex are measured on a freshly compiled value after one warm-up call. Oracle: W(4L) <= 2.6·W(2L) whenever W(4L) is large enough to be meaningful (>= 64 ticks per byte-independent constant), and W <= K·(states+8)·(len+1) with a fixed generous K; a search exceeding 40 000 ticks per input byte is stopped and counted as super-linear (the cap is itself a verdict, not a time-out). Compilation: pattern families (nesting, counted repetition and ranges, nested repetition, alternation width, class ranges, concatenations, a?^n a^n, literal length exact / case-insensitive / through three-member fold orbits, products of alternatives and of classes, dot and Unicode-class repetition, case-insensitive alternations, right-nested alternation, long suffix literals) at every size up to the bound, oracle W(2k) <= 8·W(k) + c (polynomial growth of degree <= 3) and W(k) <= 64·W(k-1) + c enforced as a work limit during the compilation itself (a blow-up is stopped by the deterministic counter, not by a clock). states = (program, family, length) inputs; transitions = measured calls; non-trivial = measurements above the noise threshold.",
 		Level: "model_checking", Budget: budget, UnitTimeout: 600 * time.Second,
 		Bounds: map[string]any{"pattern_ast_nodes_max": sp.T.PN, "seed_edit_distance": sp.T.SK, "patterns": len(sp.Pats), "pump_families": len(fams), "base_length": n, "lengths": []int{n, 2 * n, 4 * n}, "compile_families": len(cfs)},
 		Assume: []string{"L2: the bounded exploration decides the growth RATE up to 4L on the enumerated families; the existence of a global constant K beyond that is an assumption", "work inside assembly kernels and the standard library is not counted (each call counts one tick); such scans only advance left to right", "ticks are a proxy for time: function entries + loop iterations of library code"},
